@@ -64,7 +64,7 @@ def _gen_one(rng):
             if g["chrom"] == "":
                 g["chrom"] = chroms[0]
             for k in ("start", "end"):
-                if g[k] == "":
+                if g[k] in ("", "0"):       # a typed one-based position cannot be empty or 0
                     g[k] = "1"
             rows.append({"kind": "typed", "f": g})
         else:
@@ -123,6 +123,14 @@ def corpus():
          "rows": [{"kind": "typed", "f": dict(chrom=c, start=s, end=s)} for c, s in (("X", "5"), ("10", "7"), ("2", "10"), ("2", "9"), ("1", "100"))]},
         _ucase(["#sort.order Coordinate"], ["Coordinate", None], [["chr1", "10", "10"], ["chr1", "9", "9"]]),
         _ucase(["#sort.order Coordinate"], ["Coordinate", None], [["chr1", "10", "10"], ["chr1", "9", "9"]], sort=False),
+        # falsy values: typed chromosome "0" (int 0) with contigs 1,0 ; untyped position 0
+        {"stream": "corpus", "typed": True, "sort": True, "hdr": {"lines": ["#version gdc-1.0.0", "#sort.order Coordinate", "#contigs 1,0"]},
+         "declared": ["Coordinate", ["1", "0"]], "names": C.GDC_NAMES,
+         "rows": [{"kind": "typed", "f": dict(chrom=c, start=s, end=s)} for c, s in (("0", "5"), ("1", "7"), ("0", "1"), ("X", "1"))][:3]},
+        {"stream": "corpus", "typed": True, "sort": True, "hdr": {"lines": ["#version gdc-1.0.0", "#sort.order Coordinate"]},
+         "declared": ["Coordinate", None], "names": C.GDC_NAMES,
+         "rows": [{"kind": "typed", "f": dict(chrom=c, start=s, end=s)} for c, s in (("X", "5"), ("0", "7"), ("1", "1"), ("0", "1"))]},
+        _ucase(["#sort.order Coordinate", "#contigs 0,1"], ["Coordinate", ["0", "1"]], [["1", "0", "0"], ["0", "5", "5"], ["0", "0", "1"], ["0", "0", "0"]]),
         _ucase([], [None, None], [["chr1", "10", "10"], ["chr1", "9", "9"]]),
     ]
 
